@@ -472,6 +472,10 @@ fn op_cast(var: usize, src: &str, dst: &str, safe: bool, vals: &str) -> Out {
         }
     }
     duality(&rs, &rt, &valid_in, &from, &to, &mut out);
+    if matches!(&rs, Err(e) if e == "PANIC") || matches!(&rt, Err(e) if e == "PANIC") {
+        out.tags.push("kf:panic".into());
+        out.oracle.push("the cast panicked".into());
+    }
     checks_on_output(&rs, &to, toks.len(), dom, "safe", &mut out);
     checks_on_output(&rt, &to, toks.len(), dom, "strict", &mut out);
     if can_cast_types(&from, &to) {
@@ -1044,14 +1048,14 @@ fn gen_cast(rng: &mut Rng) -> (String, String) {
             dec_vals(rng, w1, p1, ood),
             format!("g:dec-dec dir:{} {} {}", dir, if inf { "infallible" } else { "fallible" }, if w1 == w2 { "same-width" } else { "cross-width" }),
         )
-    } else if g < 66 {
+    } else if g < 63 {
         // Decimal256 with a large scale increase (precision + scale delta beyond 127)
         let p1 = *rng.pick(&[76usize, 75, 70, 60, 52]);
         let s1 = rng.range(-3, 10);
         let p2 = *rng.pick(&[76usize, 76, 70]);
         let s2 = (s1 + rng.range(45, 76)).min(p2 as i64);
         (dec_tok(256, p1, s1), dec_tok(256, p2, s2), dec_vals(rng, 256, p1, false), "g:dec-dec dir:up big-delta".into())
-    } else if g < 72 {
+    } else if g < 70 {
         // bool ↔ numeric / text
         if rng.bool() {
             let n = n_rows(rng);
